@@ -19,6 +19,8 @@ RULES = {
              "'is None' / HasField / isinstance",
     "R01.5": "loaded objects do not share state: constructor arguments/defaults are copied (R04.5) "
              "and the AuxData / codec path keeps no hidden state (R14.1, R14.2, R14.5)",
+    "R01.3": "staged decode: every decoder registers the node it returns and consumer stages follow "
+             "producer stages (a valid saved file must load)",
     "R01.4": "AuxData persistence: the writer iterates the whole aux_data mapping, the reader "
              "the whole proto map, unfiltered",
 }
@@ -74,6 +76,21 @@ def run(chk: Check) -> None:
     sub = chk.sub()
     _write_paths(sub, schema, pf, [m for m in schema.reachable("IR")] + ["Offset"])
     chk.adopt(sub, None, "R01.1")
+    from .c02 import _fresh_objects, _presence_flag, _whole_collections
+    sub = chk.sub()
+    msgs_all = [m for m in schema.reachable("IR")] + ["Offset"]
+    _whole_collections(sub, schema, pf, msgs_all)
+    _fresh_objects(sub, schema, pf)
+    _presence_flag(sub, pf)
+    chk.adopt(sub, None, "R01.1")
+    from .loader import stage_order
+    from .ownership import ownership
+    sub = chk.sub()
+    stage_order(sub, "R01.3")
+    for prop_, rule_, construct_, ok_, loc_, msg_, facts_ in ownership(repo).obs:
+        if rule_ == "R03.6":
+            sub.ob("R01.3", construct_, ok_, loc_, msg_, facts_)
+    chk.adopt(sub)
     from .c04 import _ctor_copies
     from .c14 import _to_protobuf, _typestate
     from .purity import codec_state
@@ -154,8 +171,27 @@ def _state_agreement(chk: Check, repo: Repo, types: TypeEnv) -> None:
         st = _state(repo, c)
         if not st:
             raise AnalysisError("no constructor state derived for %s" % cname)
+        init_k = c.find_method("__init__")
         for p, attrs in st:
             n_attrs += 1
+            # ---- the constructor itself establishes the attribute from its parameter
+            if init_k is not None:
+                me_k = init_k.self_name
+                stored = False
+                for n0 in walk_no_nested(init_k.node):
+                    if isinstance(n0, (ast.Assign, ast.AnnAssign)) and n0.value is not None:
+                        tgs = n0.targets if isinstance(n0, ast.Assign) else [n0.target]
+                        if any(isinstance(t, ast.Attribute) and attr_path(t.value) == (me_k,) for t in tgs) and \
+                                any(isinstance(x, ast.Name) and x.id == p for x in ast.walk(n0.value)):
+                            stored = True
+                    elif isinstance(n0, ast.Call) and isinstance(n0.func, ast.Attribute) and \
+                            n0.func.attr in ("__init__", "update", "extend", "add") and \
+                            any(isinstance(x, ast.Name) and x.id == p
+                                for a0 in list(n0.args) + [k0.value for k0 in n0.keywords] for x in ast.walk(a0)):
+                        stored = True
+                chk.ob("R01.1", "%s.%s:constructor-stores" % (cname, p), stored, init_k.loc(),
+                       "%s.__init__ takes '%s' but never stores it: the attribute is missing or stale "
+                       "on every constructed (and loaded) %s" % (cname, p, cname), 2)
             # ---- writer side
             missing = []
             for a in attrs:
